@@ -312,6 +312,7 @@ class CallableParallelExecution(
         # Retrieve outputs on the fly to call the callbacks, typically
         # iterates progress bar and stores the data in database or cache.
         stop = False
+        output = None
 
         # TODO: simplify with for loop and build ordered_outputs incrementally.
         while n_outputs != n_tasks and not stop:
